@@ -2,7 +2,7 @@ SPECIFICATION Spec
 CONSTANTS
   Derives = {"Add", "Sub", "BitAnd", "BitOr", "BitXor", "AddAssign", "SubAssign", "BitAndAssign", "BitOrAssign", "BitXorAssign", "AsMut", "AsRef", "Constructor", "Debug", "Deref", "DerefMut", "Display", "Binary", "Octal", "LowerHex", "UpperHex", "LowerExp", "UpperExp", "Pointer", "Error", "From", "FromStr", "Index", "IndexMut", "Into", "IntoIterator", "IsVariant", "Mul", "Div", "Rem", "Shr", "Shl", "MulAssign", "DivAssign", "RemAssign", "ShrAssign", "ShlAssign", "Not", "Neg", "Sum", "Product", "TryFrom", "TryInto", "TryUnwrap", "Unwrap"}
   EmitCases = TRUE
-  BodySet = {"bare", "empty_parens", "ident", "unknown_ident", "int_literal", "string_literal", "eq_string", "nested_literal", "legacy_types_int", "legacy_fmt", "type_list", "unit_type", "tuple_type", "duplicate_attr", "fmt_literal", "fmt_bad_literal", "fmt_unicode", "fmt_huge_number", "punct_soup", "group_soup", "word_repr", "word_forward", "word_skip", "nested_trailing", "nested_trailing2", "fmt_variant", "fmt_variant_wrap", "types_nocomma", "forms_nocomma", "not_wrapped", "path", "path_global", "path_call", "path_generic", "legacy_in_owned", "legacy_in_ref", "legacy_in_ref_mut", "rename_lower", "rename_upper", "rename_pascal", "rename_camel", "rename_snake", "rename_scream", "rename_kebab", "rename_screamkebab"}
+  BodySet = {"bare", "empty_parens", "ident", "unknown_ident", "int_literal", "string_literal", "eq_string", "nested_literal", "legacy_types_int", "legacy_fmt", "type_list", "unit_type", "tuple_type", "duplicate_attr", "fmt_literal", "fmt_bad_literal", "fmt_unicode", "fmt_huge_number", "punct_soup", "group_soup", "word_repr", "word_forward", "word_skip", "nested_trailing", "nested_trailing2", "fmt_variant", "fmt_variant_wrap", "types_nocomma", "forms_nocomma", "not_wrapped", "path", "path_global", "path_call", "path_generic", "legacy_in_owned", "legacy_in_ref", "legacy_in_ref_mut", "rename_lower", "rename_upper", "rename_pascal", "rename_camel", "rename_snake", "rename_scream", "rename_kebab", "rename_screamkebab", "legacy_fmt_int", "legacy_fmt_none", "legacy_fmt_nonstr", "legacy_fmt_only_args"}
 INVARIANTS
   P_C18_Domain
   Emit
